@@ -148,6 +148,16 @@ def handleSpec (op : String) (args : List Bytes) : Option String :=
     match Spec.parts Model.entity (Gen.mimeDepthLimit + 1) e with
     | none => some "NONE"
     | some ps => some (s!"P{ps.length}" ++ String.join (ps.map fun p => " " ++ dumpTable p ++ "|" ++ dumpBody (Spec.decodedBody Model.entity Gen.mimeDepthLimit p)))
+  | "partsrfc", [m] =>
+    -- the parts a reader of RFC 2045 sees (boundary parameter in any position, token or quoted-string): judges finding F30
+    let e := Model.parseMessage m
+    match Spec.partsRFC Model.entity (Gen.mimeDepthLimit + 1) e with
+    | none => some "NONE"
+    | some ps => some (s!"P{ps.length}" ++ String.join (ps.map fun p => " " ++ dumpTable p ++ "|" ++ dumpBody (Spec.decodedBody Model.entity Gen.mimeDepthLimit p)))
+  | "bparamrfc", [ct] =>
+    some (match Spec.boundaryParamRFC ct, Spec.boundaryParam ct with
+      | a, b => (match a with | .none => "NONE" | .bad => "BAD" | .some x => "B" ++ toHex x) ++ " " ++
+                (match b with | .none => "NONE" | .bad => "BAD" | .some x => "B" ++ toHex x))
   | "body", [m] =>
     let e := Model.parseMessage m
     if !Proofs.BoundaryOk (Gen.mimeDepthLimit + 1) e then some "NOTWF" else
